@@ -511,7 +511,20 @@ def pakt_cases(ctx, rng, n=40):
 def campaign(ctx, njobs):
     jobs = make_jobs(ctx, njobs)
     hs = {j.name: j.harness_script() for j in jobs}
-    impl = ctx.batch([(j.name, hs[j.name]) for j in jobs], workers=3, clean=True)
+    # one private TMPDIR per harness process: alac.c spools the packets through <TMPDIR>/<two pseudo-random numbers>-alac.tmp opened with
+    # fopen "wb+" (no O_EXCL), the numbers are seeded from the wall clock, and other checks write ALAC files at the same time -- two
+    # processes that pick the same name share one spool file (seen once: a job's data chunk held another job's packet)
+    import tempfile, shutil
+    lst = [(j.name, hs[j.name]) for j in jobs]
+    dirs = [tempfile.mkdtemp(prefix="sfverif-alac-") for _ in range(3)]
+    impl = {}
+    try:
+        with concurrent.futures.ThreadPoolExecutor(max_workers=3) as ex:
+            for r in ex.map(lambda k: ctx.batch(lst[k::3], workers=1, clean=True, env={"TMPDIR": dirs[k]}), range(3)):
+                impl.update(r)
+    finally:
+        for d in dirs:
+            shutil.rmtree(d, ignore_errors=True)
     views, ms = {}, []
     for j in jobs:
         il = impl.get(j.name, [])
